@@ -105,8 +105,8 @@ def build():
                 continue
             body = ctext % dict(t=ltext, d=dflt)
             feats = {'gen', 'g-' + cid, 'k-' + kind}
-            if lid in QUICK_LEAVES and cid in QUICK_CONTAINERS:
-                feats.add('genq')
+            if lid in QUICK_LEAVES and cid in QUICK_CONTAINERS and not (lid == 'bits-named' and cid in ('ref', 'seqof')):
+                feats.add('genq')      # (two named-bit strings: ~23 000 paths per codec, thorough tier only)
             if kind == 'real':
                 feats.add('real')
             out.append(dict(id='g/%s/%s' % (cid, lid), text=_mod(body, 'AUTOMATIC TAGS'), type='A', module='T',
